@@ -305,6 +305,11 @@ func RunJobScenario(sc *Scenario) (vd *Verdict) {
 			}
 			r.jobs[fmt.Sprint(op.M["id"])] = op.M
 			r.ev("addJob")
+		case "tick":
+			if v := r.tickOp(op, i); v != nil {
+				fail(v, i)
+				return
+			}
 		case "run":
 			if v := r.runOp(op, i); v != nil {
 				fail(v, i)
@@ -540,4 +545,291 @@ func shortAll(l []string) []string {
 		o[i] = shortURI(x)
 	}
 	return o
+}
+
+// --- C17: per-entity error handling -------------------------------------------------------------
+
+type runRec struct {
+	start, end   time.Time
+	ended        bool
+	accepted     [][]string // batches the sink accepted, in order
+	singleReject []string   // single-entity deliveries the sink rejected, in order
+	afterStop    int        // sink calls after the handler reported "max items reached"
+	attempts     int
+}
+
+type c17State struct {
+	runs      []*runRec
+	cur       *runRec
+	fails     map[string]int // remaining failures per entity (-1 = permanent)
+	reportsAt int            // index into the observed logs consumed so far
+}
+
+func (r *JobRun) installC17(spec map[string]any, st *c17State) {
+	st.fails = map[string]int{}
+	times := intOf(spec, "rejectTimes")
+	if rej, ok := spec["rejectIds"].([]any); ok {
+		for _, x := range rej {
+			n := -1
+			if times > 0 {
+				n = times
+			}
+			st.fails[markerToFull(fmt.Sprint(x))] = n
+		}
+	}
+	failAll := intOf(spec, "sinkFailAlways") == 1
+	hooks.onPoint = nil
+	hooks.onFaultOn = func(owner any, name string, subject any, hit int64) error {
+		r.recMu.Lock()
+		defer r.recMu.Unlock()
+		switch name {
+		case "job.afterBorrow":
+			st.cur = &runRec{start: time.Now()}
+			st.runs = append(st.runs, st.cur)
+		case "job.afterResult":
+			if st.cur != nil {
+				st.cur.end, st.cur.ended = time.Now(), true
+			}
+		case "sink.dataset":
+			if st.cur == nil {
+				return nil
+			}
+			st.cur.attempts++
+			ids := entIDs(r.H, subject)
+			if failAll {
+				r.Stats["fault_sink_error"]++
+				return errSinkInjected
+			}
+			reject := false
+			for _, id := range ids {
+				if n, ok := st.fails[id]; ok && n != 0 {
+					reject = true
+					if n > 0 {
+						st.fails[id] = n - 1
+					}
+				}
+			}
+			if reject {
+				r.Stats["fault_sink_reject"]++
+				if len(ids) == 1 {
+					st.cur.singleReject = append(st.cur.singleReject, ids[0])
+				}
+				return fmt.Errorf("scripted sink rejects a batch of %d", len(ids))
+			}
+			st.cur.accepted = append(st.cur.accepted, ids)
+		}
+		return nil
+	}
+}
+
+// handlerReports returns the entity ids the log error handler reported since the last call.
+func (r *JobRun) handlerReports(st *c17State) []string {
+	var out []string
+	if r.H.Logs == nil {
+		return nil
+	}
+	all := r.H.Logs.All()
+	for _, e := range all[st.reportsAt:] {
+		if strings.Contains(e.Message, "failed to process") {
+			// "entity <curie> failed to process: ..."
+			f := strings.Fields(e.Message)
+			if len(f) > 1 {
+				out = append(out, r.H.expand(f[1]))
+			}
+		}
+	}
+	st.reportsAt = len(all)
+	return out
+}
+
+// tickOp lets the cron trigger fire once and follows the run and its re-runs to the end.
+func (r *JobRun) tickOp(op *Op, i int) *Violation {
+	id := op.S
+	cfg := r.jobs[id]
+	if cfg == nil {
+		return viol("C17", "harness", "invalid", "unknown job %s", id)
+	}
+	spec := op.M
+	if spec == nil {
+		spec = map[string]any{}
+	}
+	trig := cfg["triggers"].([]any)[0].(map[string]any)
+	jobType := fmt.Sprint(trig["jobType"])
+	maxItems, maxRetries, retryDelay, hasLog, hasRerun := 0, 0, int64(0), false, false
+	if l, ok := trig["onError"].([]any); ok {
+		for _, x := range l {
+			eh := x.(map[string]any)
+			switch strings.ToLower(fmt.Sprint(eh["errorHandler"])) {
+			case "log":
+				hasLog = true
+				maxItems = intOf(eh, "maxItems")
+			case "rerun":
+				hasRerun = true
+				maxRetries = intOf(eh, "maxRetries")
+				if maxRetries == 0 {
+					maxRetries = 1
+				}
+				retryDelay = int64(intOf(eh, "retryDelay"))
+				if retryDelay == 0 {
+					retryDelay = 30
+				}
+			}
+		}
+	}
+	st := &c17State{}
+	if r.H.Logs != nil {
+		st.reportsAt = r.H.Logs.Len()
+	}
+	r.installC17(spec, st)
+	defer r.clearFaults()
+	// advance to just after the next trigger time: the "@every 10m" trigger fires once
+	time.Sleep(10*time.Minute + time.Second)
+	if !r.H.WaitJobsIdle(2 * time.Hour) {
+		return viol("C17", "job-run", "job-hangs", "job still running after 2h of simulated time")
+	}
+	// give re-runs time to happen (they are timers on the fake clock); stay below the next cron tick
+	wait := time.Duration(int64(maxRetries+2)*retryDelay) * time.Second
+	if wait > 8*time.Minute {
+		wait = 8 * time.Minute
+	}
+	time.Sleep(wait)
+	if !r.H.WaitJobsIdle(2 * time.Hour) {
+		return viol("C17", "job-run", "job-hangs", "job still running after 2h of simulated time")
+	}
+	if len(st.runs) == 0 {
+		return viol("C17", "job-run", "cron-did-not-fire", "no run started within 10 minutes although the trigger is @every 10m")
+	}
+	r.Stats["job_runs"] += int64(len(st.runs))
+	src := sourceNames(cfg)[0]
+	d := r.M.DS[src]
+	first := st.runs[0]
+	// what the first run was given
+	from := 0
+	if jobType != "fullsync" {
+		from = r.consumed[id]
+	}
+	var given []string
+	for _, v := range d.Versions[from:] {
+		given = append(given, v.C.ID)
+	}
+	reports := r.handlerReports(st)
+	cell := fmt.Sprintf("n=%d batch=%v maxItems=%d rejected=%v times=%d %s", len(given), cfg["batchSize"], maxItems, shortAll(keysOfInt(st.fails)), intOf(spec, "rejectTimes"), jobType)
+	r.ev("tick runs=%d rejects=%d reports=%d", len(st.runs), len(first.singleReject), len(reports))
+	if hasLog && intOf(spec, "sinkFailAlways") == 0 {
+		// (a) every single-entity rejection is reported exactly once, nothing else is reported
+		var allRej []string
+		for _, rn := range st.runs {
+			allRej = append(allRej, rn.singleReject...)
+		}
+		if strings.Join(reports, ",") != strings.Join(allRej, ",") {
+			cls := "wrong-reports"
+			if len(reports) < len(allRej) {
+				cls = "rejection-not-reported"
+			} else if len(reports) > len(allRej) {
+				cls = "reported-more-than-once"
+			}
+			return viol("C17", "error-handling", "reports:"+cls, "cell %s: the sink rejected %v as single entities, the log handler reported %v", cell, shortAll(allRej), shortAll(reports))
+		}
+		// (b) the stop rule
+		stopped := maxItems > 0 && len(first.singleReject) >= maxItems
+		if maxItems > 0 && len(first.singleReject) > maxItems {
+			return viol("C17", "error-handling", "not-stopped-at-max-items", "cell %s: maxItems=%d but the run went on to %d rejected entities", cell, maxItems, len(first.singleReject))
+		}
+		acc := map[string]bool{}
+		for _, b := range first.accepted {
+			for _, x := range b {
+				acc[x] = true
+			}
+		}
+		rej := map[string]bool{}
+		for _, x := range first.singleReject {
+			rej[x] = true
+		}
+		stopAt := len(given)
+		if stopped {
+			last := first.singleReject[len(first.singleReject)-1]
+			for k, x := range given {
+				if x == last {
+					stopAt = k
+				}
+			}
+		}
+		// (c) every other entity before the stop was delivered, none after it
+		for k, x := range given {
+			if k < stopAt && !rej[x] && !acc[x] {
+				return viol("C17", "error-handling", "good-entity-not-delivered", "cell %s: %s was neither rejected nor delivered to the sink (accepted batches %v)", cell, shortURI(x), first.accepted)
+			}
+			if stopped && k > stopAt && acc[x] {
+				return viol("C17", "error-handling", "delivered-after-stop", "cell %s: %s was delivered although the run had to stop at %s", cell, shortURI(x), shortURI(given[stopAt]))
+			}
+		}
+		// (d) the recorded outcome carries the error
+		res := r.H.LastResult(id)
+		lastErr := ""
+		if res != nil {
+			lastErr, _ = res["lastError"].(string)
+		}
+		lastRun := st.runs[len(st.runs)-1]
+		if len(lastRun.singleReject) > 0 && lastErr == "" {
+			return viol("C17", "error-handling", "outcome-without-error", "cell %s: entities were rejected but the recorded outcome has no error: %v", cell, res)
+		}
+		if len(first.singleReject) == 0 && len(st.runs) == 1 && lastErr != "" {
+			return viol("C17", "error-handling", "outcome-error-without-rejection", "cell %s: nothing was rejected for good but the outcome says %q", cell, lastErr)
+		}
+		// (e) accepted entities are in the sink
+		inSink := map[string]bool{}
+		if sink := r.H.Dataset(sinkName(cfg)); sink != nil {
+			if res, err := sink.GetEntities("", 0); err == nil {
+				for _, e := range res.Entities {
+					inSink[r.H.expand(e.ID)] = true
+				}
+			}
+		}
+		for x := range acc {
+			if !inSink[x] {
+				return viol("C17", "error-handling", "accepted-entity-not-in-sink", "cell %s: %s was accepted by the sink but is not in it", cell, shortURI(x))
+			}
+		}
+		r.Stats["error_handling_checks"]++
+	}
+	// re-run rule
+	failedFirst := false
+	if res := r.H.LastResult(id); res != nil || len(st.runs) > 0 {
+		failedFirst = len(first.singleReject) > 0 || intOf(spec, "sinkFailAlways") == 1
+	}
+	reruns := len(st.runs) - 1
+	if !hasRerun || !failedFirst {
+		if reruns > 0 {
+			return viol("C17", "rerun", "rerun-without-cause", "cell %s: %d re-run(s) although hasRerun=%v failed=%v", cell, reruns, hasRerun, failedFirst)
+		}
+	} else {
+		if reruns > maxRetries {
+			return viol("C17", "rerun", "too-many-reruns", "cell %s: %d re-runs, maxRetries=%d", cell, reruns, maxRetries)
+		}
+		for k := 1; k < len(st.runs); k++ {
+			gap := st.runs[k].start.Sub(st.runs[k-1].end)
+			if gap != time.Duration(retryDelay)*time.Second {
+				return viol("C17", "rerun", "wrong-delay", "cell %s: re-run %d started %v after the failed run ended, configured delay %ds", cell, k, gap, retryDelay)
+			}
+		}
+		// a failed run with retries left must be re-run
+		lastFailed := len(st.runs[len(st.runs)-1].singleReject) > 0 || intOf(spec, "sinkFailAlways") == 1
+		if lastFailed && reruns < maxRetries {
+			return viol("C17", "rerun", "missing-rerun", "cell %s: the last of %d run(s) failed and %d of %d retries were used, but no re-run followed", cell, len(st.runs), reruns, maxRetries)
+		}
+		r.Stats["rerun_checks"]++
+	}
+	if jobType != "fullsync" {
+		r.consumed[id] = len(d.Versions)
+	}
+	return nil
+}
+
+func keysOfInt(m map[string]int) []string {
+	var l []string
+	for k := range m {
+		l = append(l, k)
+	}
+	sort.Strings(l)
+	return l
 }
